@@ -588,7 +588,10 @@ let run_frp_guided oc (name, lines) =
         (* the update-set annotation is computed from the state before the close, which does not depend on the
            order of the deferred transactions of THIS line; with several candidate states it may differ: only
            print it when there is a single candidate *)
-        Printf.fprintf oc "%s%s\n" out (if List.length !cands = 1 then !last_annot else "");
+        let md = match chosen with (s1, _, _) :: _ -> Printf.sprintf " #md=%d" (int_of_nat s1.depth) | [] -> "" in
+        let ua = if List.length !cands = 1 then !last_annot else "" in
+        let ua = if ua = "" then md else ua ^ (String.sub md 2 (String.length md - 2) |> fun x -> " " ^ x) in
+        Printf.fprintf oc "%s%s\n" out ua;
         if stop then stopped := true;
         let sts = List.fold_left (fun acc (s, _, _) -> if List.mem s acc then acc else acc @ [s]) [] chosen in
         let rec take n l = if n = 0 then [] else match l with [] -> [] | x :: t -> x :: take (n - 1) t in
